@@ -248,3 +248,44 @@ pub proof fn theorem_scanner_cand(modes: Seq<ScannerMode>, k: int, cm: CompiledS
     lemma_scanner_cand_last(modes, k, cm, cls, lf, text, l, tid);
     lemma_last_is_own(modes[k].patterns@, lf, text, l, tid);
 }
+
+// ---- the tie rule (C01 / C05): "ties go to the pattern listed first"
+/// configurations on which "first position of the token type" is "position of the pattern": the token types of a mode's patterns are pairwise distinct
+pub open spec fn tt_distinct(pats: Seq<Pattern>) -> bool {
+    forall|i: int, j: int| 0 <= i < j < pats.len() ==> tid_of(#[trigger] pats[i]) != tid_of(#[trigger] pats[j])
+}
+/// the token types of mode k's automaton are those of the mode's patterns, in pattern order
+pub proof fn lemma_scanner_terminal_ids(modes: Seq<ScannerMode>, k: int, cm: CompiledScannerMode)
+    requires 0 <= k < modes.len(), mode_built(modes, k, cm)
+    ensures core(cm.dfa).terminal_ids@ == Seq::new(modes[k].patterns@.len(), |i: int| tid_of(modes[k].patterns@[i]))
+{
+    let pats = modes[k].patterns@;
+    let reg0 = mode_reg(modes, k);
+    let reg1 = mp_th(pats, pats.len() as int, reg0).1;
+    let d = cm.dfa;
+    let (m, d0, reps, dm) = choose|m: MultiPatternNfa, d0: CompiledDfa, reps: Seq<StateID>, dm: CompiledDfa| {
+        &&& #[trigger] mp_built(pats, reg0, m) && #[trigger] elim_ok(g_mp(m), d0, reps) && #[trigger] min_of(d0, dm)
+        &&& d0.terminal_ids@ == Seq::new(pats.len(), |i: int| tid_of(pats[i]))
+        &&& d.states == dm.states && d.end_states == dm.end_states && d.terminal_ids == dm.terminal_ids
+        &&& la_map_ok(pats, reg1, pats.len() as int, dm.lookaheads@, d.lookaheads@)
+        &&& mode_reg(modes, k + 1) == la_reg(pats, pats.len() as int, reg1)
+    };
+}
+/// THEOREM (tie rule at pattern level): with pairwise distinct token types, the priority the scan side gives to the token type of pattern i is i, the position of
+/// the pattern. Without that hypothesis the statement is FALSE for the pinned code (known finding D10, units/u_c01find/finding_c01.rs): the priority of a
+/// candidate is the first position of its TOKEN TYPE, so a pattern that shares its token type with an earlier pattern jumps ahead of the patterns in between.
+pub proof fn theorem_scanner_prio(modes: Seq<ScannerMode>, k: int, cm: CompiledScannerMode, i: int)
+    requires 0 <= k < modes.len(), mode_built(modes, k, cm), tt_distinct(modes[k].patterns@), 0 <= i < modes[k].patterns@.len()
+    ensures prio(core(cm.dfa), tid_of(modes[k].patterns@[i])) == i
+{
+    let pats = modes[k].patterns@;
+    lemma_scanner_terminal_ids(modes, k, cm);
+    let ids = core(cm.dfa).terminal_ids@;
+    assert(is_prio(ids, tid_of(pats[i]), i)) by {
+        assert forall|j: int| 0 <= j < i implies ids[j] != tid_of(pats[i]) by { assert(tid_of(pats[j]) != tid_of(pats[i])); }
+    }
+    let r = prio(core(cm.dfa), tid_of(pats[i]));
+    assert(is_prio(ids, tid_of(pats[i]), r));
+    if r < i { assert(ids[r] != tid_of(pats[i])); }
+    if i < r { assert(ids[i] != tid_of(pats[i])); }
+}
